@@ -355,3 +355,60 @@ Section Round.
       + exists 1%nat. split; [lia|]. split; assumption.
   Qed.
 End Round.
+
+(* ---------- the ClusterCIDR-deletion half: what a fault-free run of the work item of a ClusterCIDR whose deletion was
+   requested can do ---------- *)
+Section CCRound.
+  Variable po : parse_oracle.
+  Variable lab : label_oracle.
+
+  Lemma find_cc_put_cc x l y : find_cc (o_name x) l = Some y -> find_cc (o_name x) (put_cc x l) = Some x.
+  Proof.
+    intros H. unfold put_cc. rewrite H. revert y H. induction l as [|h t IH]; intros y; cbn; [discriminate|].
+    destruct (str_eqb (o_name h) (o_name x)) eqn:E; cbn; intros H; [rewrite str_eqb_refl; reflexivity|rewrite E; eapply IH; exact H].
+  Qed.
+
+  Definition busy_at (m : cidrmap) (o : ccobj) : Prop :=
+    o_selkey o = None \/
+    exists k l i c, o_selkey o = Some k /\ find_key k m = Some l /\ find_name (o_name o) l 0 = Some (i, c) /\ cc_assoc c <> [].
+
+  (* W: controller running, the object as cached is the object in the API (fresh), deletion requested, our finalizer on it *)
+  Lemma run_cc_sync_deleting W m o :
+    w_ctl W = Some m -> find_cc (o_name o) (w_ccs W) = Some o -> o_deleting o = true -> has_str finalizer (o_fins o) = true ->
+    let W2 := fst (run_cc_sync W (o_name o) (Some o) UOk) in
+    (* released: our finalizer is off the object (the object is gone when it carried no other finalizer) *)
+    ((forall o2, find_cc (o_name o) (w_ccs W2) = Some o2 -> has_str finalizer (o_fins o2) = false) /\ w_ctl W2 <> None) \/
+    (* or the controller still sees dependants (or cannot convert the selector): nothing is written *)
+    (w_ccs W2 = w_ccs W /\ w_cfeed W2 = w_cfeed W /\ busy_at m o).
+  Proof.
+    intros Em Hcur Hd Hf. unfold run_cc_sync. rewrite Em, Hcur, N.eqb_refl.
+    unfold sync_cc. rewrite Hd. unfold reconcile_delete.
+    destruct (delete_cluster_cidr m o) as [m1 r1] eqn:Hdel.
+    assert (Hcases : (r1 = Ok tt) \/ (exists e, r1 = Err e /\ busy_at m o)).
+    { unfold delete_cluster_cidr in Hdel. destruct (o_selkey o) as [k|] eqn:Hk; [|inversion Hdel; subst; right; exists ESelector; split; [reflexivity|left; exact Hk]].
+      destruct (find_key k m) as [l|] eqn:Hfk; [|inversion Hdel; subst; left; reflexivity].
+      destruct (find_name (o_name o) l 0) as [[i c]|] eqn:Hfn; [|inversion Hdel; subst; left; reflexivity].
+      destruct (cc_assoc c) as [|a0 al] eqn:Ha.
+      - destruct l as [|c0 [|c1 lt]]; inversion Hdel; subst; left; reflexivity.
+      - inversion Hdel; subst. right. exists EBusy. split; [reflexivity|]. right. exists k, l, i, c. split; [exact Hk|split; [exact Hfk|split; [exact Hfn|rewrite Ha; discriminate]]]. }
+    destruct Hcases as [->|(e & -> & Hb)].
+    - left. rewrite Hf. cbn [after_call res_code fst snd ob_res]. cbn [andb].
+      assert (Hae : forall w0, w_ccs w0 = w_ccs W -> w_ctl w0 = Some m1 ->
+                (forall o2, find_cc (o_name o) (w_ccs (apply_effects w0 [FxUpdateCC (with_fins o (remove_str finalizer (o_fins o))) UOk])) = Some o2 -> has_str finalizer (o_fins o2) = false) /\
+                w_ctl (apply_effects w0 [FxUpdateCC (with_fins o (remove_str finalizer (o_fins o))) UOk]) <> None).
+      { intros w0 E1 E2. cbn [apply_effects]. unfold apply_update_cc. cbn [with_fins o_name o_rv o_fins]. rewrite E1, Hcur, N.eqb_refl. cbn [negb].
+        cbn [with_rv o_deleting o_fins]. rewrite Hd. cbn [andb].
+        assert (Hrm : has_str finalizer (remove_str finalizer (o_fins o)) = false).
+        { unfold has_str, remove_str. apply Bool.not_true_iff_false. intros H. apply existsb_exists in H. destruct H as (x & Hx & Ex).
+          apply filter_In in Hx. destruct Hx as [_ Hx]. rewrite Ex in Hx. discriminate Hx. }
+        destruct (remove_str finalizer (o_fins o)) as [|f0 fr] eqn:Er; cbn [set_api w_ccs w_ctl].
+        - split; [|rewrite E2; discriminate]. intros o2 H2. rewrite find_cc_del_cc in H2. discriminate H2.
+        - split; [|rewrite E2; discriminate]. intros o2 H2.
+          match type of H2 with find_cc _ (put_cc ?X _) = _ =>
+            assert (Hput : find_cc (o_name o) (put_cc X (w_ccs W)) = Some X) by (apply (find_cc_put_cc X (w_ccs W) o); exact Hcur) end.
+          rewrite Hput in H2. inversion H2; subst o2. cbn. exact Hrm. }
+      match goal with |- context [if negb ?b then _ else _] => destruct (negb b) end; apply Hae; reflexivity.
+    - right. cbn [after_call apply_effects fst]. rewrite ?Hd. cbn [andb].
+      match goal with |- context [if negb ?b then _ else _] => destruct (negb b) end; cbn; (split; [reflexivity|split; [reflexivity|exact Hb]]).
+  Qed.
+End CCRound.
